@@ -28,7 +28,10 @@ import ns2
 alias AS = S
 alias AP = String
 
-struct S
+struct P
+    pf Int32
+
+struct S extends P
     "DOC"
     f Int32
         "FIELDDOC"
@@ -46,14 +49,14 @@ BASE = [fe.parse(NS2, 'ns2.stone'), fe.parse(TEMPLATE, 't.stone')]
 assert fe.run_text([('ns2.stone', NS2), ('t.stone', TEMPLATE)])[0] == 'ok'
 
 TAGS = ['field', 'route', 'type', 'link', 'val', 'zz']
-PARTS = hx.tier(['S', 'f', 'r', 'AS', 'AP', 'ns2', 'X', 'zz', '2'],
-                ['S', 'f', 'U', 't', 'r', 'AS', 'AP', 'ns2', 'X', 'xf', 'xr', 'zz', '2', 'String', 'other'])
+PARTS = hx.tier(['S', 'f', 'pf', 'r', 'AS', 'AP', 'ns2', 'X', 'zz', '2'],
+                ['S', 'f', 'pf', 'P', 'U', 't', 'r', 'AS', 'AP', 'ns2', 'X', 'xf', 'xr', 'zz', '2', 'String', 'other'])
 SEPS = hx.tier(['.', ':', ' '], ['.', ':', ' ', '-'])
 SITES = ['type', 'field', 'route']
 
-FIELDS = {'S': ('f',), 'U': ('t', 'other'), 'AS': ('f',), 'ns2.X': ('xf',)}
+FIELDS = {'S': ('f', 'pf'), 'P': ('pf',), 'U': ('t', 'other'), 'AS': ('f', 'pf'), 'ns2.X': ('xf',)}   # inherited fields count
 ROUTES = {'r': (1, 2), 'ns2.xr': (1,)}
-TYPES = ('S', 'U', 'ns2.X')
+TYPES = ('S', 'P', 'U', 'ns2.X')
 
 
 def ref_rule(site, tag, val):
